@@ -458,3 +458,25 @@ PROPS["C16"] = {
         "are inside the tolerance the property grants."),
     "vacuity": need(["empty_vectors_with_reserved_capacity", "sparse_darray_cases"]),
 }
+
+
+PROPS["C17"] = {
+    "bin": "mc_words",
+    "quick": [step("mc_words", CHK), step("mc_words", FAST)],
+    "thorough": [step("mc_words", CHK), step("mc_words", FAST)],
+    "evidence": exploration_evidence(
+        "exhaustive enumeration of the factors of the input space: select_in_word(w,k) for all k < 64 on ALL words of popcount "
+        "<= 3 and >= 61, all words whose 8 bytes come from {00,FF,01,80,A5} (every carry pattern of the byte sums), every byte "
+        "value at every byte position on 4 backgrounds (the whole in-byte table), all 64x64 runs and rotated runs; "
+        "select_in_word_u128 on all pairs of 215 boundary words (empty upper / lower halves included) for all k < 128 with 128 "
+        "as not-found; popcnt_wide::<0,1,2,4,8,9> on all slices of length 0..9 over a word alphabet; msb exhaustively for u8/u16 "
+        "and on all one-/two-bit values and 2^j-1 for u32/u64/usize/u128; stable_partition_of_4/_of_2 for all six element types "
+        "and EVERY shift below the width on all digit sequences of length <= 5 whose elements carry unique low/high tags and "
+        "all-ones noise above the digit (result must equal the stable sort by the digit); text_remap on all byte strings of "
+        "length <= 5 over {0,1,7,200,255}. Reference: naive bit scans and sort_by_key. Every case is non-trivial.",
+        TRUST,
+        "select_in_word is NOT checked on all 2^64 words: the claim is exhaustive coverage of the lookup table, of every byte-sum "
+        "carry pattern over the byte alphabet, and of all low/high-popcount words; thorough adds popcount 4 / 60, a 7-value byte "
+        "alphabet (5.7 M words), sequences of length 6 and strings of length 7."),
+    "vacuity": need(["words", "words128"]),
+}
